@@ -100,6 +100,7 @@ type W struct {
 	family     string
 	sampleCap  int
 	lastKey    string
+	famStart   time.Time
 	// NoCur disables the per-item progress record (for very cheap items that cannot kill the process).
 	NoCur bool
 }
@@ -114,7 +115,14 @@ func hash64(s string) uint64 {
 }
 
 // Family names the family the following items belong to.
-func (w *W) Family(name string) { w.family = name }
+func (w *W) Family(name string) {
+	now := time.Now()
+	if w.family != "" && !w.famStart.IsZero() {
+		w.rep.MaxCounters["family_ms:"+w.family] += now.Sub(w.famStart).Milliseconds()
+	}
+	w.famStart = now
+	w.family = name
+}
 
 // Mine decides whether this worker owns the item with the given distinct key
 // (sharding by key hash, so duplicates meet in one worker and are dropped).
@@ -304,6 +312,7 @@ func WorkerMain(id, tier string, shard, n int, seed int64, scratch, calcBin stri
 		}()
 		c.Run(w)
 	}()
+	w.Family("")
 	w.rep.Done = true
 	b, _ := json.Marshal(w.rep)
 	if err := os.WriteFile(filepath.Join(scratch, fmt.Sprintf("report.%d.json", shard)), b, 0o644); err != nil {
@@ -403,7 +412,7 @@ func CheckMain(id, tier string, self string) int {
 	if n <= 0 {
 		n = 16
 	}
-	budget := 75 * time.Second
+	budget := 100 * time.Second
 	if tier == "thorough" {
 		budget = 14 * time.Minute
 	}
